@@ -1,6 +1,7 @@
 """C12 -- Contexts, rules and buffers survive the JSON round trip unchanged in behaviour."""
 import json
 from core import rng_for, mk, bits_of, L, R, randbits, Buffer, Padding, raw, impl_outcome
+from core import mkmap, given_items
 from schc_run import Batch, obs_bits, with_timeout, parser_for
 from schc_util import gen_rule, gen_rfd, KINDS, fid_of, DIRC, MOC, CDAC, prefix_free_ids, i2b
 from gens import gen_parsed, gen_ruleset, synth_case, synth_pdesc, payload_variants, b2s, no_compression_rule
@@ -69,8 +70,8 @@ def all_buffers(obj, acc):
 
 def tv_tokens(tv):
     if isinstance(tv, MatchMapping):
-        t = ['m', str(len(tv.forward))]
-        for v, i in tv.forward.items():
+        t = ['m', str(len(given_items(tv)))]
+        for v, i in given_items(tv):
             t += [raw(v), raw(i)]
         return t
     return ['b', raw(tv)]
@@ -139,7 +140,7 @@ def gen_mapping(rnd):
         if v not in vals:
             vals.append(v)
     idxs = prefix_free_ids(rnd, len(vals), maxlen=7)
-    return MatchMapping({mk(v, rnd.choice([L, R])): mk(i, rnd.choice([L, R])) for v, i in zip(vals, idxs)})
+    return mkmap({mk(v, rnd.choice([L, R])): mk(i, rnd.choice([L, R])) for v, i in zip(vals, idxs)})
 
 
 def run(rep, tier, seed):
@@ -155,8 +156,8 @@ def run(rep, tier, seed):
     # mappings
     for _ in range(2000 if T else 200):
         mm = gen_mapping(rnd)
-        t = ['J', 'mapping', str(len(mm.forward))]
-        for v, i in mm.forward.items():
+        t = ['J', 'mapping', str(len(given_items(mm)))]
+        for v, i in given_items(mm):
             t += [raw(v), raw(i)]
         add(b, MatchMapping, mm, 'mapping', ' '.join(t))
     npk = 1000 if T else 120
@@ -199,8 +200,13 @@ def run(rep, tier, seed):
                 r_ = comp_[0]
                 k_ = rnd.randrange(len(r_.field_descriptors))
                 o_ = r_.field_descriptors[k_]
-                r_.field_descriptors[k_] = RuleFieldDescriptor(o_.id, o_.length, o_.position, o_.direction, MatchMapping({}), MO.MATCH_MAPPING, CDA.MAPPING_SENT)
+                r_.field_descriptors[k_] = RuleFieldDescriptor(o_.id, o_.length, o_.position, o_.direction, mkmap({}), MO.MATCH_MAPPING, CDA.MAPPING_SENT)
                 add(b, RuleDescriptor, r_, 'rule:with-empty-mapping', 'J rule ' + ' '.join(rule_tokens(r_)))
+        if i % 7 == 2 and rules:
+            # a later rule under the id of an earlier one (same bits, possibly the other padding side): both are part of the context
+            r0_ = rules[0]
+            dup = RuleDescriptor(id=mk(bits_of(r0_.id), rnd.choice([L, R])), field_descriptors=gen_rule(rnd, pd, '1', kinds=('vs', 'vsv', 'lsb')).field_descriptors)
+            rules.append(dup)
         ctx = Context(id='ctx%d' % i, description='d %d' % (i % 3), interface_id='if%d' % (i % 2), parser_id=stack, ruleset=rules)
         t = ['J', 'context', str(text_code(ctx.id)), str(text_code(ctx.description)), str(text_code(ctx.interface_id)), str(text_code(ctx.parser_id)), str(len(rules))]
         for r in rules:
